@@ -80,9 +80,9 @@ def run_case(case):
     levels = [1, 2] if tier == "quick" else [0, 1, 2, 3]
     ncond = 2 if tier == "quick" else 3
     if "factory" in case:
-        ii = c01.factory_info(case["factory"], case["invert"], case["cond"])
+        ii = c01.factory_info(case["factory"], case["invert"], case["cond"], dim=case.get("dim", 2))
         cls = f"factory:{case['factory']}"
-        builder = lambda lvl: c01.build_factory(case["factory"], case["invert"], case["cond"], seed, lvl).bijection  # noqa: E731
+        builder = lambda lvl: c01.build_factory(case["factory"], case["invert"], case["cond"], seed, lvl, dim=case.get("dim", 2)).bijection  # noqa: E731
     else:
         ii = g.info(case["spec"])
         cls = g._cls(case["spec"])
